@@ -17,8 +17,18 @@ type spellingGroup struct {
 	labels []string
 }
 
-func admissibleValue(v string) bool {
-	return v != "" && !strings.HasPrefix(v, "-") && !strings.HasPrefix(v, "=") && !strings.HasPrefix(v, "\"")
+// admissibleValue: a value every documented spelling can carry - not empty, not looking like an
+// option (a negative number is admissible for a signed numeric option), no leading '=' or quote
+func admissibleValue(v, code string) bool {
+	if v == "" || strings.HasPrefix(v, "=") || strings.HasPrefix(v, "\"") {
+		return false
+	}
+	if strings.HasPrefix(v, "-") {
+		sc := strings.TrimLeft(code, "LP")
+		signed := sc == "int" || sc == "i8" || sc == "i16" || sc == "i32" || sc == "i64" || sc == "f32" || sc == "f64" || sc == "dur"
+		return signed && len(v) > 1 && v[1] >= '0' && v[1] <= '9'
+	}
+	return true
 }
 
 // GenSpellingGroup builds a declaration and k argument vectors that differ only in how one
@@ -61,7 +71,7 @@ func GenSpellingGroup(r *rand.Rand, p Profile) *spellingGroup {
 		ok := false
 		for i := 0; i < 20; i++ {
 			v = g.valueText(o.code, o.choices)
-			if admissibleValue(v) {
+			if admissibleValue(v, o.code) {
 				ok = true
 				break
 			}
@@ -229,10 +239,10 @@ func GenClusterGroup(r *rand.Rand, p Profile) *spellingGroup {
 		if len(argL) > 0 && r.Intn(2) == 0 {
 			last := argL[r.Intn(len(argL))]
 			v := ""
-			for i := 0; i < 20 && !admissibleValue(v); i++ {
+			for i := 0; i < 20 && !admissibleValue(v, last.code); i++ {
 				v = g.valueText(last.code, last.choices)
 			}
-			if admissibleValue(v) {
+			if admissibleValue(v, last.code) {
 				cluster = append(cluster, last)
 				tail = []string{v}
 			}
